@@ -38,6 +38,16 @@ theorem decode_torn (f : Frame) (hlen : f.payload.length < 4294967296) (m : Nat)
     have hlt : ¬ min f.payload.length (m - 8) = f.payload.length := by omega
     simp [hlt]
 
+/-- the frames `mux.write` cuts a buffer into fit their headers, for a maximum payload below 2^32
+    (it is 4 MiB + 10 in the code) and a connection id below 2^32 (`ConnID` is a `uint32`) -/
+theorem WOp.ofWrite_bounded (mp id : Nat) (buf : Bytes) (fail : Option (Nat × CallFail))
+    (hmp : 0 < mp) (hmp32 : mp < 4294967296) (hid : id < 4294967296) :
+    (WOp.ofWrite mp id buf fail).Bounded := by
+  intro f hf
+  have := specFrames_bounds mp hmp hmp32 [(id, buf)] (by intro w hw; simp at hw; subst hw; exact hid) f
+  apply this
+  simpa [specFrames, WOp.ofWrite] using hf
+
 /-- The invariant. -/
 structure WInv (s : WSt) : Prop where
   bounded : ∀ f ∈ s.whole, f.id < 4294967296 ∧ f.payload.length < 4294967296
